@@ -281,6 +281,7 @@ def run_check(tier, seed):
     for rule, goal, accepted, err, foreign in meta[:3]:
         run.sample(dict(rule=rule, goal=sstr(goal), accepted=accepted, error=err))
 
+    rpow_part(run, tier, g)
     poly_part(run, tier, g)
     float_part(run, tier)
     run.cov['rule'] = ('ground arithmetic goals lhs = rhs / lhs < rhs ... over nat, int, real (depth<=3; + - * unary -, Suc, /, inverse, '
@@ -290,6 +291,89 @@ def run_check(tier, seed):
     run.assumptions = ['real powers with real exponents, sqrt/pi/trig/exp/log are outside the Coq semantics; const_inequality on them is judged '
                        'by mpmath at 60 digits (exploration)', 'standard meaning is defined only for constants used at their declared numeric instances']
     return run.finish()
+
+
+def rpow_part(run, tier, g):
+    """Real powers with integer-valued real exponents (negative ones included) of positive rational bases: outside the Coq
+    semantics (NumEval.sem has natural powers only), judged by exact rational arithmetic in the harness (exploration)."""
+    r = run.rng
+    n = 120 if tier == 'quick' else 1500
+    rp = kterm.real_power(RealType)
+
+    def base():
+        c = r.random()
+        if c < 0.5:
+            return Real(r.choice([2, 3, 5, 6, 7, 10, 12]))
+        if c < 0.7:
+            return Real(Fraction(r.choice([1, 2, 3, 5, 7]), r.choice([2, 3, 4, 9])))
+        if c < 0.85:
+            return kterm.plus(RealType)(Real(r.choice([1, 2, 3])), Real(r.choice([1, 2, 4])))
+        return kterm.of_nat(RealType)(Nat(r.choice([3, 5, 10])))
+
+    def expo():
+        k = r.choice([-400, -7, -3, -2, -1, -1, 1, 2, 3, 5])
+        c = r.random()
+        if c < 0.6:
+            return Real(k), k
+        if c < 0.8:
+            return kterm.uminus(RealType)(Real(-k)), k
+        return kterm.of_int(RealType)(Int(k)), k
+
+    def value(b):
+        return py_sem(b)
+    for _ in range(n):
+        b = base()
+        e, k = expo()
+        p = rp(b, e)
+        try:
+            v = value(b) ** k
+        except Exception:
+            continue
+        c = r.random()
+        if c < 0.3:
+            lhs, val = p, v
+        elif c < 0.6:
+            m = Real(r.choice([2, 3, 7]))
+            lhs, val = kterm.times(RealType)(m, p), py_sem(m) * v
+        elif c < 0.8:
+            lhs, val = kterm.times(RealType)(b, p), value(b) * v
+        else:
+            a = Real(r.choice([1, 2]))
+            lhs, val = kterm.minus(RealType)(p, a), v - py_sem(a)
+        if abs(k) > 50:
+            # the value is astronomically small / large: compare with 0 and with 1 instead of writing it out
+            goals = [(kterm.greater(RealType)(lhs, Real(0)), val > 0), (Eq(lhs, Real(0)), val == 0), (kterm.less(RealType)(lhs, Real(1)), val < 1),
+                     (kterm.less_eq(RealType)(lhs, Real(0)), val <= 0)]
+        else:
+            off = r.choice([Fraction(0), Fraction(0), Fraction(1, 10 ** 12), Fraction(-1, 10 ** 12), Fraction(1)])
+            rhs_v = val + off
+            rhs = Real(rhs_v)
+            goals = [(Eq(lhs, rhs), val == rhs_v), (kterm.less(RealType)(lhs, rhs), val < rhs_v), (kterm.greater_eq(RealType)(lhs, rhs), val >= rhs_v),
+                     (kterm.less_eq(RealType)(lhs, rhs), val <= rhs_v)]
+        for goal, truth in goals:
+            for rule in ('real_eval', 'real_compare', 'real_const_eq', 'real_const_ineq', 'const_inequality'):
+                if rule == 'real_eval' and not goal.is_equals():
+                    continue
+                th, err = check_step(rule, goal)
+                run.stat('rpow:%s:%s' % (rule, 'acc' if th is not None else 'rej'))
+                if th is None:
+                    continue
+                pr = th.prop
+                if pr == goal:
+                    claim = True
+                elif pr == Not(goal):
+                    claim = False
+                elif pr.is_equals() and pr.lhs == goal and pr.rhs in (true, false):
+                    claim = (pr.rhs == true)
+                else:
+                    continue
+                run.count(('rpow', rule, sstr(goal)), nontrivial=True)
+                if claim != truth:
+                    run.violation('property', '%s asserts a false arithmetic fact about a real power: %s' % (rule, sstr(th)),
+                                  dict(rule=rule, goal=sstr(goal), goal_repr=repr(goal), result=sstr(th), exact_value_of_left_side=str(val) if abs(k) <= 50 else 'base ^ %d' % k,
+                                       oracle='exact rational arithmetic in the harness (positive base, integer exponent)',
+                                       reproduce="p=Proof(); p.add_item(0,'%s',args=goal); theory.check_proof(p)" % rule),
+                                  key='C05:%s:real-power' % rule)
 
 
 def poly_part(run, tier, g):
